@@ -36,6 +36,21 @@ TEXT = {
   level_text="Generated probes (random, truncated, bit-flipped, foreign-key, replayed, reflected, invalid-after-authentication) and client behaviours (hold, FIN at t, trickle) run against the real handler with the production 59 s timeout in fake time: zero bytes written, every byte consumed, return at exactly start+59 s or exactly at the client's FIN, drained-not-closed after authentication; real loopback sockets add close kind (FIN not RST), a sound lower bound on the close time and post-dial corruption.",
   level_note="Authentication decisions come from an independent codec; fake-time engine uses Go 1.26 timer semantics; real-time upper bounds are generous and must reproduce.",
  ),
+ "C07": dict(
+  technique="stateful model-based property testing (rapid) of the replay cache incl. concurrent bursts, and of two handlers sharing it",
+  level_text="Generated add/resize/burst histories against the real ReplayCache with a sliding-window model (capacity in force per check), boundary capacities and distances; concurrent copies of one handshake must have exactly one winner; two real StreamHandlers sharing the cache must refuse a re-presented handshake on either with ERR_REPLAY_CLIENT, no dial, no bytes and a probe report.",
+  level_note="Collisions of the 32-bit checksum are not modelled but neutralised by re-randomising salts; schedules of bursts are those the scheduler produces.",
+ ),
+ "C08": dict(
+  technique="property-based testing (rapid): pairwise-distinct salts and behavioural reflection of recorded server output",
+  level_text="Generated runs of relayed connections under all ciphers; every server salt is compared with all earlier ones, and recorded server streams are reflected back (verbatim, truncated, extended) with the replay cache on and off: for salts of at least 20 bytes the reflection must be refused as ERR_REPLAY_SERVER and handled like a probe.",
+  level_note="Freshness is checked within a run (hundreds of salts), not statistically; AEAD/HMAC strength assumed.",
+ ),
+ "C20": dict(
+  technique="property-based testing (rapid): class oracle for location labels, and leak + metamorphic checks on the real collector's exposition",
+  level_text="Generated addresses and database behaviours against the location helpers with an independent class oracle (incl. zero database calls for non-global addresses); generated traffic histories against the real Prometheus collector checking that no series carries the client IP/port in any textual form, that one client has one location label, and that the exposition is invariant under replacing the client by another address of the same class.",
+  level_note="Leak detection is textual over names and label values; values are covered by the metamorphic relation.",
+ ),
 }
 def _na():
     from checks_table import CHECKS
